@@ -105,7 +105,13 @@ def jobs(tier):
         else:
             # bound 2 for the parse/parse harnesses, sharded by the first deviation; bound 1 for the other pairs and for 3 threads
             if h[2] == "parse/parse":
-                out.append(("shard-root", h, 2))
+                # bound 2, sharded by the first deviation from the default schedule (the root execution is shard 0's extra)
+                bodies, expected = make(*h)
+                x = sched.Execution(bodies(), [], impl.LIBDIR).run()
+                roots = list(sched.children(x, 0, 2))
+                n = 12
+                for k in range(n):
+                    out.append(("shard", h, 2, roots[k::n], k == 0))
             else:
                 out.append(("explore", h, 1, None, 2))
             out.append(("explore", h, 1, None, 3))
@@ -121,6 +127,15 @@ SHARDS = 24
 def run(job) -> JobResult:
     res = JobResult()
     kind = job[0]
+    if kind == "shard":
+        _, h, bound, roots, with_root = job
+        bodies, expected = make(*h)
+        if with_root:
+            x = sched.Execution(bodies(), [], impl.LIBDIR).run()
+            _account(res, h, bound, 2, {"executions": 1, "points": len(x.points), "maxpoints": len(x.points), "capped": False}, {repr(x.results): 1}, [] if x.results == expected else [(list(x.choices), x.results, [])], expected)
+        if roots:
+            _account(res, h, bound, 2, *sched.explore(bodies, bound, lambda r: r == expected, impl.LIBDIR, roots=roots), expected)
+        return res
     if kind == "shard-root":
         # enumerate the first-deviation prefixes, then explore each shard here (jobs are per harness; the pool runs harnesses in parallel)
         _, h, bound = job
